@@ -187,6 +187,8 @@ def _c11():
         q = t in ("number", "char", "char_list", "symbol", "unit")
         hs.append(H("c11_equal_%s" % t, "rel", "quick" if q else "thorough", "Equal: left operand of type %s (symbolic contents), right operand of SYMBOLIC type among the types C11 lists, or the left operand itself: %s" % (t, what)))
         hs.append(H("c11_not_equal_%s" % t, "rel", "quick" if t in ("number", "char_list") else "thorough", "NotEqual, same operands: the negation"))
+    hs.append(H("c11_equal_numbers_mixed", "rel", "quick", "Equal on two numbers of any representation (any i32 / any f64 incl. NaN, infinities, -0.0; mixed): numeric equality"))
+    hs.append(H("c11_not_equal_numbers_mixed", "rel", "quick", "NotEqual on the same: the negation"))
     for l, r in EQ_STRUCT:
         q = (l, r) in (("pair", "pair"), ("list", "list"), ("list", "concatenation"))
         hs.append(H("c11_equal_%s_vs_%s" % (l, r), "rel", "quick" if q else "thorough", "Equal: %s vs %s (or the same value twice), children symbolic and shared between the operands, lists of length 0..2: %s" % (l, r, what), timeout=1500))
@@ -226,7 +228,7 @@ STORE_LISTS = [H("store_basic_list_p%d%s" % (o, u), "store", "thorough", "REAL B
               [H("store_simple_list_%d" % k, "store", "thorough", "REAL SimpleGarnishData: a first list keyed by k0,k1, then a second list of %d items keyed by k2.. (all symbols symbolic u64): length, index access, lookup of a symbolic symbol in the second list (modulo placement + probing); no stale associations, no error, no panic on the empty list" % k, cbmc_args=FIELD_SENS, timeout=1800, optional=True) for k in range(3)] + \
               [H("store_simple_list_unkeyed", "store", "thorough", "REAL SimpleGarnishData: lookup in a list holding an unkeyed item is 'absent', not an error", cbmc_args=FIELD_SENS, timeout=1800, optional=True),
                H("store_basic_list_index_kf", "store", "thorough", "witness of the recorded finding: BasicGarnishData::get_list_item past the end is an Err", cbmc_args=FIELD_SENS, timeout=1800, optional=True)]
-STORE_READBACK = [H("store_basic_readback", "store", "quick", "REAL BasicGarnishData with data block of initial size 2 (+4 per growth) and 2-cell instruction / jump blocks: interleaved adds to all three tables across several growth steps; every value reads back with the same type and content", cbmc_args=FIELD_SENS)]
+STORE_READBACK = [H("store_basic_readback_x2", "store", "quick", "same interleaving with every block starting at size 1 and growing multiplicatively (x2): 1 -> 2 -> 4 -> 8", cbmc_args=FIELD_SENS, timeout=1500), H("store_basic_readback", "store", "quick", "REAL BasicGarnishData with data block of initial size 2 (+4 per growth) and 2-cell instruction / jump blocks: interleaved adds to all three tables across several growth steps; every value reads back with the same type and content", cbmc_args=FIELD_SENS)]
 
 
 def _c15():
